@@ -113,14 +113,34 @@ Qed.
 
 (* ---------- parent side ---------- *)
 Section Parent.
+  Variable gd : enq_guard.
   Variable g : enq -> Z.
+  Hypothesis Hg : guard_good gd = true.
+
+  Lemma guard_parts : g_asks_alive gd = true /\ g_checks_closed gd = true.
+  Proof. unfold guard_good in Hg. apply andb_true_iff in Hg. exact Hg. Qed.
+
+  Lemma refused_spec s : refused gd s = false -> p_closed s = false /\ p_dead s = false.
+  Proof.
+    destruct guard_parts as [A C]. unfold refused. rewrite A, C. cbn [andb].
+    destruct (p_closed s), (p_dead s); cbn; intros H; try discriminate; split; reflexivity.
+  Qed.
+
+  Lemma refused_when s : p_closed s = true \/ p_dead s = true -> refused gd s = true.
+  Proof.
+    destruct guard_parts as [A C]. unfold refused. rewrite A, C. cbn [andb].
+    intros [H|H]; rewrite H; cbn; rewrite ?orb_true_r; reflexivity.
+  Qed.
+
+  Lemma not_refused_taking s : refused gd s = false -> taking s = true.
+  Proof. intros H. destruct (refused_spec s H) as [A B]. unfold taking. rewrite A, B. reflexivity. Qed.
 
   (* values delivered so far / enqueues accepted so far, along a history *)
   Fixpoint trace (s : pst) (ops : list pop) : list Z * list enq * pst :=
     match ops with
     | [] => ([], [], s)
     | o :: r =>
-        let '(s', ob) := pstep g s o in
+        let '(s', ob) := pstep gd g s o in
         let '(vs, acc, sf) := trace s' r in
         ((match ob with OVal v => v :: vs | _ => vs end),
          (match o, ob with
@@ -134,40 +154,71 @@ Section Parent.
     vs ++ unread sf = unread s ++ map g acc /\ n_enq sf = (n_enq s + length acc)%nat.
   Proof.
     induction ops as [|o r IH]; intros s; simpl; [rewrite app_nil_r; split; [reflexivity|lia]|].
-    destruct (pstep g s o) as [s' ob] eqn:E. specialize (IH s').
+    destruct (pstep gd g s o) as [s' ob] eqn:E. specialize (IH s').
     destruct (trace s' r) as [[vs acc] sf]. destruct IH as [IH1 IH2].
-    destruct o as [e| | | |e]; simpl in E.
-    - destruct (p_closed s || p_dead s); inversion E; subst; simpl in *; [split; [exact IH1|lia]|].
+    destruct o as [e| | | |e|]; cbn [pstep] in E.
+    - destruct (refused gd s) eqn:R; [inversion E; subst; simpl in *; split; [exact IH1|lia]|].
+      rewrite (not_refused_taking s R) in E. inversion E; subst; simpl in *.
       rewrite IH1, <- app_assoc. simpl. split; [reflexivity|lia].
     - destruct (unread s) as [|r0 t] eqn:Hu.
       + destruct (p_closed s || p_dead s); inversion E; subst; simpl in *; rewrite ?Hu in *; split; auto; lia.
       + inversion E; subst; simpl in *. rewrite IH1. split; [reflexivity|lia].
     - inversion E; subst; simpl in *. split; [exact IH1|lia].
-    - inversion E; subst; simpl in *. split; [exact IH1|lia].
-    - destruct (p_closed s || p_dead s); [inversion E; subst; simpl in *; split; [exact IH1|lia]|].
+    - inversion E; subst; simpl in *. destruct (p_failed s); split; try exact IH1; lia.
+    - destruct (refused gd s) eqn:R; [inversion E; subst; simpl in *; split; [exact IH1|lia]|].
+      rewrite (not_refused_taking s R) in E.
       destruct (unread s ++ [g e]) as [|r0 t] eqn:Hu; [destruct (unread s); discriminate|].
       inversion E; subst; simpl in *. rewrite IH1.
       change (r0 :: t ++ map g acc) with ((r0 :: t) ++ map g acc). rewrite <- Hu, <- app_assoc.
       split; [reflexivity|lia].
+    - destruct (refused gd s) eqn:R; [inversion E; subst; simpl in *; split; [exact IH1|lia]|].
+      rewrite (not_refused_taking s R) in E. inversion E; subst; simpl in *. split; [exact IH1|lia].
   Qed.
 
   (* each accepted enqueue is answered exactly once and in order: the delivered values
      are a prefix of the results of the accepted enqueues *)
   Theorem delivered_is_prefix ops :
-    let '(vs, acc, sf) := trace (mkP [] false false O) ops in
+    let '(vs, acc, sf) := trace pst0 ops in
     vs = firstn (length vs) (map g acc) /\ n_enq sf = length acc.
   Proof.
-    pose proof (trace_conservation ops (mkP [] false false O)) as H.
-    destruct (trace (mkP [] false false O) ops) as [[vs acc] sf]. simpl in H. destruct H as [H1 H2].
+    pose proof (trace_conservation ops pst0) as H.
+    destruct (trace pst0 ops) as [[vs acc] sf]. simpl in H. destruct H as [H1 H2].
     split; [|exact H2]. rewrite <- H1, firstn_app, Nat.sub_diag, firstn_all. simpl. now rewrite app_nil_r.
   Qed.
 
-  Lemma enqueue_after_close s e : p_closed s = true \/ p_dead s = true -> snd (pstep g s (PEnq e)) = OClosedErr.
-  Proof. intros [H|H]; simpl; rewrite H; simpl; rewrite ?orb_true_r; reflexivity. Qed.
+  Lemma enqueue_after_close s e : p_closed s = true \/ p_dead s = true -> snd (pstep gd g s (PEnq e)) = OClosedErr.
+  Proof. intros H. cbn [pstep]. rewrite (refused_when s H). reflexivity. Qed.
+
+  (* the worker is dead as soon as it has died - whether or not the parent object has been asked about it since *)
+  Lemma dead_after_die s : refused gd s = false -> p_dead (fst (pstep gd g s PDie)) = true.
+  Proof. intros R. cbn [pstep]. rewrite R, (not_refused_taking s R). reflexivity. Qed.
+
+  Lemma enqueue_first_thing_after_death s e :
+    refused gd s = false -> snd (pstep gd g (fst (pstep gd g s PDie)) (PEnq e)) = OClosedErr.
+  Proof. intros R. apply enqueue_after_close. right. apply dead_after_die. exact R. Qed.
+
+  (* what the parent object believes about a death is never ahead of the facts *)
+  Definition consistent (s : pst) : Prop := p_known_dead s = true -> p_dead s = true.
+  Lemma pstep_consistent s o : consistent s -> consistent (fst (pstep gd g s o)).
+  Proof.
+    unfold consistent. intros H. destruct o as [e| | | |e|]; cbn [pstep].
+    - destruct (refused gd s); [exact H|]. destruct (taking s); cbn; [discriminate|exact H].
+    - destruct (unread s); [destruct (p_closed s || p_dead s)|]; cbn; auto.
+    - cbn. exact H.
+    - cbn. reflexivity.
+    - destruct (refused gd s); [exact H|]. destruct (taking s).
+      + destruct (unread s ++ [g e]); cbn; [exact H|discriminate].
+      + destruct (unread s); cbn; auto.
+    - destruct (refused gd s); [exact H|]. destruct (taking s); cbn; [discriminate|exact H].
+  Qed.
 
   Lemma call_no_outstanding s e :
-    unread s = [] -> p_closed s = false -> p_dead s = false -> snd (pstep g s (PCall e)) = OVal (g e).
-  Proof. intros H1 H2 H3. simpl. rewrite H1, H2, H3. reflexivity. Qed.
+    consistent s -> unread s = [] -> p_closed s = false -> p_dead s = false -> snd (pstep gd g s (PCall e)) = OVal (g e).
+  Proof.
+    intros Hc H1 H2 H3. cbn [pstep]. destruct guard_parts as [A C].
+    assert (K : p_known_dead s = false) by (unfold consistent in Hc; destruct (p_known_dead s); [specialize (Hc eq_refl); congruence|reflexivity]).
+    unfold refused, taking. rewrite H1, H2, H3, A, C, K. cbn. rewrite andb_false_r. reflexivity.
+  Qed.
 End Parent.
 
 (* ---------- C06: the stream after a crash anywhere in the loop ---------- *)
